@@ -241,7 +241,22 @@ class SArr(Sym):
             raise OutOfSubset('ellipsis index')
         n_new = sum(1 for i in idx if i is None)
         if n_new:
-            raise OutOfSubset('newaxis index (use np.expand_dims spec)')
+            # a[..., None, ...]: index without the None entries, then insert the unit axes (a COPY, as np.expand_dims in npspec:
+            # writes through the result are not propagated to `a`)
+            base = self[tuple(i for i in idx if i is not None)]
+            if not isinstance(base, SArr):
+                base = npspec.asarray(base)
+            pos, k = [], 0
+            for i in idx:
+                if i is None:
+                    pos.append(k)
+                    k += 1
+                elif isinstance(i, slice):
+                    k += 1
+            out = base
+            for p_ in pos:
+                out = npspec.expand_dims(out, p_)
+            return out
         if len(idx) > self.ndim:
             raise IndexError('too many indices for array')
         idx = list(idx) + [slice(None)] * (self.ndim - len(idx))
@@ -419,8 +434,8 @@ class SArr(Sym):
     def __radd__(self, o): return self._ew(o, lambda a, b: a + b, rev=True)
     def __sub__(self, o): return self._ew(o, lambda a, b: a - b)
     def __rsub__(self, o): return self._ew(o, lambda a, b: a - b, rev=True)
-    def __mul__(self, o): return self._ew(o, lambda a, b: a * b)
-    def __rmul__(self, o): return self._ew(o, lambda a, b: a * b, rev=True)
+    def __mul__(self, o): return self._ew(o, _mul)
+    def __rmul__(self, o): return self._ew(o, _mul, rev=True)
     def __truediv__(self, o):
         _div_obligation(o)
         return self._ew(o, _rdiv, 'real')
@@ -430,6 +445,10 @@ class SArr(Sym):
         return self._ew(o, _rdiv, 'real', rev=True)
     def __neg__(self): return ew1(self, lambda a: -a)
     def __pow__(self, p):
+        if isinstance(p, float) and p.is_integer():      # a ** 2. : numpy computes the same value as a ** 2 (result is float; ints are promoted)
+            p = int(p)
+            if self.kind == 'int':
+                return ew1(self, lambda a: z3.ToReal(a), 'real') ** p
         if isinstance(p, int) and 0 <= p <= 4:
             r = self if p >= 1 else ew1(self, lambda a: a * 0 + 1)
             for _ in range(p - 1):
@@ -550,6 +569,12 @@ def _div_obligation(d):
         if isinstance(d, SOpt):
             d = d.get('divisor')
         vc.oblige('call-pre[division by non-zero]', lift(d).t != 0)
+
+
+def _mul(a, b):
+    if z3.is_bool(a) and z3.is_bool(b):      # numpy: bool * bool is logical and (dtype bool)
+        return z3.And(a, b)
+    return a * b
 
 
 def _rdiv(a, b):
